@@ -177,3 +177,99 @@ def check_coherent_sum(repo, chk, rule="B-sum"):
     chk.oblige(rule, "DecayGroup.get_amp == sum over the selected chains (3 selections)", bad is None)
     if bad:
         chk.violation(rule, fn.key, "sum", "DecayGroup.get_amp: %s - the coherent sum must run over exactly the chains of the selection" % bad, file=CORE, line=fn.lineno)
+
+
+def fitfraction_functions_by_interpretation(repo, chk):
+    """cal_fitfractions / cal_fitfractions_no_grad interpreted with the integrators as probes: the integral of the
+    currently selected resonances is a free symbol I_<selection>, its gradient G_<selection>.  Returns the keys of the
+    functions decided this way (their statements are then not matched against role names)."""
+    FFm = "tf_pwa/fitfractions.py"
+    decided = set()
+    names = ["a", "b", "c"]
+    for fname, with_grad in (("cal_fitfractions_no_grad", False), ("cal_fitfractions", True)):
+        fn = repo.fn_opt(FFm + "::" + fname)
+        if fn is None:
+            continue
+        current = {"sel": tuple(names)}
+
+        def set_used(lst):
+            current["sel"] = tuple(str(x) for x in lst)
+            return None
+
+        amp = SelfObj(None, {"trainable_variables": ["v1"], "res": list(names), "set_used_res": PyFunc(set_used), "temp_used_res": PyFunc(lambda r: None)})
+
+        def tag():
+            sel = current["sel"]
+            return "tot" if len(sel) == len(names) else "".join(sorted(sel))
+
+        def no_grad(tr, args, kwargs, node):
+            return sp.Symbol("I_" + tag())
+
+        def grad(tr, args, kwargs, node):
+            if kwargs.get("grad") is False:
+                return sp.Symbol("I_" + tag())
+            return sp.Symbol("I_" + tag()), sp.Symbol("G_" + tag())
+
+        hooks = {"allow_attr_store": True, "builtin.isinstance": lambda tr, a, k, n: isinstance(a[0], float)}
+        for g in repo.func_by_name.get("sum_no_gradient", []):
+            hooks[g.key] = no_grad
+        for g in repo.func_by_name.get("sum_gradient", []):
+            if g.mod.rel == FFm:
+                hooks[g.key] = grad
+        try:
+            out = Translator(repo, hooks=hooks, max_depth=2).call_fn(fn, [amp, {"tag": "mc"}], {"res": list(names)})
+        except Unmodelled as e:
+            chk.info("A-frac: %s not interpretable (%s); decided by formula extraction" % (fname, e))
+            continue
+        ff = out[0] if with_grad and isinstance(out, tuple) else out
+        if not isinstance(ff, dict):
+            chk.info("A-frac: %s does not return a fraction table in the interpretation; decided by formula extraction" % fname)
+            continue
+        I = sp.Symbol("I_tot")
+        want = {}
+        for i, x in enumerate(names):
+            want[x] = sp.Symbol("I_" + x) / I
+        for i, x in enumerate(names):
+            for y in names[:i]:
+                want[(x, y)] = sp.Symbol("I_" + "".join(sorted((x, y)))) / I - want[x] - want[y]
+        got = {}
+        for k, v in ff.items():
+            if isinstance(k, tuple):
+                got[tuple(str(z) for z in k)] = v
+            elif isinstance(k, str) and "x" in k and k not in names:
+                a_, b_ = k.split("x")
+                got[(a_, b_)] = v
+            else:
+                got[str(k)] = v
+        bad = []
+        if set(got) != set(want):
+            bad.append("fraction keys %s, expected %s" % (sorted(map(str, got)), sorted(map(str, want))))
+        else:
+            for k in want:
+                if sp.simplify(sp.sympify(got[k]) - want[k]) != 0:
+                    bad.append("fraction[%s] = %s, the definition gives %s" % (k, got[k], want[k]))
+        if with_grad and isinstance(out, tuple) and len(out) > 1 and isinstance(out[1], dict) and not bad:
+            G = sp.Symbol("G_tot")
+            wg = {}
+            for x in names:
+                wg[x] = sp.Symbol("G_" + x) / I - (sp.Symbol("I_" + x) / I) * G / I
+            for i, x in enumerate(names):
+                for y in names[:i]:
+                    t_ = "".join(sorted((x, y)))
+                    wg[(x, y)] = sp.Symbol("G_" + t_) / I - (sp.Symbol("I_" + t_) / I) * G / I - wg[x] - wg[y]
+            gg = {}
+            for k, v in out[1].items():
+                gg[tuple(str(z) for z in k) if isinstance(k, tuple) else str(k)] = v
+            # the second table holds errors or gradients depending on the caller's options: judged only when it holds
+            # one entry per fraction and every entry is an expression of the probes
+            if set(gg) == set(wg) and all(hasattr(sp.sympify(v), "free_symbols") for v in gg.values()):
+                for k in wg:
+                    if sp.simplify(sp.sympify(gg[k]) - wg[k]) != 0:
+                        bad.append("gradient[%s] = %s, the quotient rule gives %s" % (k, gg[k], wg[k]))
+                        break
+        chk.instance("A-index", "%s visits %d index pairs for n=3 (complete: %s)" % (fname, len(got), set(got) == set(want)))
+        chk.instance("A-frac", "%s interpreted for three resonances with probe integrals: %d fractions%s equal the definition: %s" % (fname, len(want), " (and their gradients)" if with_grad else "", not bad))
+        if bad:
+            chk.violation("A-frac", fn.key, "algebra", "%s: %s" % (fname, bad[0]), file=FFm, line=fn.lineno)
+        decided.add(fn.key)
+    return decided
